@@ -38,8 +38,7 @@ def main(names):
             rc0, _ = sh(f"/venv/bin/python {d}/demo.py", cwd=WT, env=env)
             sh(f"git apply {patch}", cwd=WT)
             rc1, out1 = sh(f"/venv/bin/python {d}/demo.py", cwd=WT, env=env)
-            rct, outt = sh("/venv/bin/python -m pytest -q -p no:cacheprovider -x --deselect tests/test_display_pyvista.py 2>&1 | tail -3; "
-                           "/venv/bin/python -m pytest -q -p no:cacheprovider 2>&1 | tail -1", cwd=WT, env=env)
+            rct, outt = sh("/venv/bin/python -m pytest -q -p no:cacheprovider 2>&1 | tail -1", cwd=WT, env=env)
             sh("git checkout -- .", cwd=WT)
             m = re.search(r"(\d+) failed, (\d+) passed", outt)
             meta["demo_exit_clean"] = rc0
